@@ -20,6 +20,7 @@ import Driver.GhgOps
 import Driver.NoxOps
 import Driver.IntegrateOps
 import Driver.HybridOps
+import Driver.ProfileOps
 open Lean Driver
 
 def dispatch (op : String) (j : Json) : Except String Json :=
@@ -38,6 +39,7 @@ def dispatch (op : String) (j : Json) : Except String Json :=
   | "nox" => noxOp op j
   | "integrate" => integrateOp op j
   | "hybrid" => hybridOp op j
+  | "profile" => profileOp op j
   | _ => .error s!"unknown op family in '{op}'"
 
 def handle (line : String) : String :=
